@@ -168,6 +168,34 @@ pub fn run_sweep(args: &Args, mut out: Out) {
         }
     }
     drop(guard);
+    // ---- log file names: the stamp in the name of a file created now is the current UTC time (the only instant a file
+    // name can be made for), in the same zero-padded fixed-width digits ----
+    {
+        let dir = std::env::current_dir().unwrap().join("fname_probe");
+        let _ = std::fs::remove_dir_all(&dir);
+        std::fs::create_dir_all(&dir).unwrap();
+        let now_ds = || {
+            let s = SystemTime::now().duration_since(SystemTime::UNIX_EPOCH).unwrap().as_secs() as i64;
+            (s / 86400, s % 86400)
+        };
+        for k in 0..12 {
+            let before = now_ds();
+            let made = catch(|| servlin::log::internal::LogFile::create(&dir.join("probe.log")));
+            let after = now_ds();
+            let name = match made {
+                Ok(Ok(f)) => f.path.file_name().map(|n| n.to_string_lossy().to_string()).unwrap_or_default(),
+                Ok(Err(e)) => format!("<error {e}>"),
+                Err(()) => "<panic>".to_string(),
+            };
+            // probe.log.YYYYMMDDTHHMMSSZ-n
+            let stamp = name.strip_prefix("probe.log.").map(|r| r.split('-').next().unwrap_or("").to_string()).unwrap_or(name.clone());
+            out.ev(sid, "FileName", json!({"bd":before.0,"bs":before.1,"ad":after.0,"as":after.1,"text":cps(&stamp),"k":k}));
+            if k % 4 == 3 {
+                std::thread::sleep(Duration::from_millis(260));
+            }
+        }
+        let _ = std::fs::remove_dir_all(&dir);
+    }
     // ---- addition: every start month 1970..=2405 x start days x durations ----
     let mut durs: Vec<(i64, i64)> = vec![(0, 0), (0, 1), (1, 0), (365, 0), (366, 0), (367, 0), (1461, 0), (36524, 0), (146_097, 0), (59, 86399), (800, 4000)];
     for _ in 0..(4 * nadd) {
